@@ -4,6 +4,7 @@ For every STROBE permutation `F`, every threshold, message and coin strings of a
 "Sampling returned some" (`share … = some _`) is the only hypothesis: the rejection sampling of
 `Fp::random` is unbounded in Rust and fuel-bounded in the model.
 -/
+import StarModel.Lemmas.Skeleton
 import StarModel.Lemmas.Adss
 
 namespace StarModel.Props.C16
